@@ -29,6 +29,9 @@ type vfCaseC03 struct {
 	Window int
 	Order  []int
 	Gs     [][]vfC03Op
+	// both directions of the transport hold at most this many unread bytes before a Write has to wait
+	// (0 = unbounded): a sender can be kept waiting in Write while replies keep arriving (seed C03-g)
+	PipeCap int `json:",omitempty"`
 }
 
 const (
@@ -43,6 +46,7 @@ func vfGenC03(t *rapid.T) vfCaseC03 {
 	c := vfCaseC03{Opts: vfGenSmallOpts(t)}
 	c.Window = rapid.SampledFrom([]int{1, 2, 3, 4, 8, 16}).Draw(t, "window")
 	c.Order = rapid.SliceOfN(rapid.IntRange(0, 15), 1, 24).Draw(t, "order")
+	c.PipeCap = rapid.SampledFrom([]int{0, 0, 1, 16, 200, 4096}).Draw(t, "pipecap")
 	ng := rapid.IntRange(1, 6).Draw(t, "goroutines")
 	mp := c.Opts.MaxPacket
 	for g := 0; g < ng; g++ {
@@ -100,6 +104,7 @@ func vfRunC03(ctx *vfCtx, c vfCaseC03) {
 		p.addFile("/scratch", nil)
 		p.window = c.Window
 		p.order = c.Order
+		l.C2S.capacity, l.S2C.capacity = c.PipeCap, c.PipeCap
 		outstanding := map[uint32]bool{}
 		p.onRequest = func(idx int, req *vfPkt) {
 			if req.Type == vfFxpInit {
